@@ -25,6 +25,8 @@ import Macaroon.Lemmas.ConcreteLawful
 import Macaroon.Props.C02
 import Macaroon.Props.C04
 import Macaroon.Props.C05
+import Macaroon.Props.C11
+import Macaroon.Props.C08
 
 namespace Macaroon.Props.Concrete
 open Macaroon Macaroon.Crypto Macaroon.Lemmas Macaroon.Lemmas.ConcreteCrypto
@@ -98,6 +100,18 @@ theorem sealed_ticket_opens (ka nonce dk : Bytes) (cs : List (Cav Bytes)) (hka :
     (hn : nonce.length = 12) (hk : dk.length < 2 ^ 32) (hw : WFCavs cs) (hd : 1 + encDepth cs ≤ defaultFuel) :
     openTicket ka (sealTicket ka nonce dk cs) = .ok dk cs :=
   ConcreteCrypto.openTicket_sealTicket ka nonce dk cs hka hn ⟨hk, hw, hd⟩
+
+/-- C04 `seal_twice_differs`, byte level (the deterministic half): `seal` writes its 12-byte AEAD nonce in
+front of the ciphertext, so two sealings — of the same content or not, under the same key or not —
+that drew different nonces are different byte strings.  That two draws differ is `crypto/rand`. -/
+theorem box_nonce_injective (key key' n n' buf buf' : Bytes) (hn : n.length = 12) (hn' : n'.length = 12)
+    (h : Concrete.box key n buf = Concrete.box key' n' buf') : n = n' := by
+  unfold Concrete.box at h
+  exact (List.append_inj h (by rw [hn, hn'])).1
+
+theorem sealTicket_nonce_injective (ka n n' dk : Bytes) (cs : List (Cav Bytes)) (hn : n.length = 12) (hn' : n'.length = 12)
+    (h : sealTicket ka n dk cs = sealTicket ka n' dk cs) : n = n' :=
+  box_nonce_injective ka ka n n' _ _ hn hn' h
 
 /-! ### what `Legit` asks of the arguments of `Add`, concretely -/
 
@@ -194,6 +208,135 @@ theorem trusted_not_refused (ka : Bytes) (rest : List Bytes) (tn rn : Bytes) (cs
     trustOf (ka :: rest) (sealTicket ka tn rn cs) rn = some true :=
   C05.trusted_not_refused ka rest tn rn cs hka htn ⟨hrn, hw, hd⟩
 
+/-! ### wire hops: what the next holder decodes is what the previous holder encoded (C05, C02, C11) -/
+
+/-- the bytes `Encode` writes for a token state -/
+def wireBytes (m : Mac Bytes) : Bytes := encMac (Concrete.toWire m)
+
+/-- the token can travel: nonce, location, caveats and tail are within the encoder's domain
+(`WFMac`: what every decoded token satisfies, C11 `reencode_fixed_point_mac`), its nesting is within
+the decoder's budget and every caveat can be encoded -/
+def Wireable (m : Mac Bytes) : Prop :=
+  WFMac (Concrete.toWire m) ∧ 1 + max 1 (encDepth m.cavs) ≤ defaultFuel ∧ m.cavs.all encodable = true
+
+/-- a wire hop — `Encode` by one holder, `Decode` by the next — is the identity on a token state that
+is not a proof awaiting finalisation (`Encode` does not change it) and not marked new: the decoded
+token is the encoded one, field for field (C11 `decode_encode_mac` at the driver's budget) -/
+theorem wire_hop (m : Mac Bytes) (hs : encodeState m = m) (hn : m.newProof = false) (hw : Wireable m) :
+    Concrete.encode m = (m, some (wireBytes m)) ∧ Concrete.decode (wireBytes m) = some m := by
+  obtain ⟨hwf, hd, he⟩ := hw
+  constructor
+  · simp [Concrete.encode, hs, he, wireBytes]
+  · have := C11.decode_encode_mac (Concrete.toWire m) defaultFuel [] hwf (by simpa [Concrete.toWire] using hd)
+    rw [List.append_nil] at this
+    simp only [Concrete.decode, wireBytes, this, Option.map_some, Option.some.injEq]
+    cases m with | mk n l c t np =>
+    cases n
+    simp only [Concrete.ofWire, Concrete.toWire, Concrete.ofNonce, Concrete.toNonce]
+    simp only at hn
+    subst hn; rfl
+
+/-- `legit_hop`: a legitimate token handed on as bytes arrives as the same legitimate token — "each
+holder working only from the encoded token" adds nothing to `Legit`: a hop is the identity -/
+theorem legit_hop (k : Bytes) (m : Mac Bytes) (hL : Legit k m) (hw : Wireable m) :
+    ∃ bs, Concrete.encode m = (m, some bs) ∧ Concrete.decode bs = some m ∧
+      ∀ m', Concrete.decode bs = some m' → Legit k m' := by
+  have inv := legit_inv k m hL
+  obtain ⟨h1, h2⟩ := wire_hop m (encodeState_nonproof m inv.notProof) inv.notNew hw
+  refine ⟨wireBytes m, h1, h2, ?_⟩
+  intro m' hm'
+  rw [h2] at hm'
+  cases hm'; exact hL
+
+/-- attenuation by a holder working from bytes: decode, `Add`, encode -/
+theorem legit_attenuate_from_bytes (k : Bytes) (m : Mac Bytes) (hL : Legit k m) (hw : Wireable m)
+    (items : List (AddItem Bytes)) (hit : ∀ it ∈ items, LegitItem it) :
+    ∃ c, Concrete.decode (wireBytes m) = some c ∧ ((add c items).2 = none → Legit k (add c items).1) := by
+  have inv := legit_inv k m hL
+  obtain ⟨_, h2⟩ := wire_hop m (encodeState_nonproof m inv.notProof) inv.notNew hw
+  exact ⟨m, h2, fun hok => .added m items hL hit hok⟩
+
+theorem filterMap_decode_wire : ∀ (ds : List (Mac Bytes)),
+    (∀ d ∈ ds, encodeState d = d ∧ d.newProof = false ∧ Wireable d) →
+    (ds.map wireBytes).filterMap Concrete.decode = ds
+  | [], _ => rfl
+  | d :: ds, h => by
+    obtain ⟨h1, h2, h3⟩ := h d (by simp)
+    simp only [List.map_cons, List.filterMap_cons, (wire_hop d h1 h2 h3).2]
+    rw [filterMap_decode_wire ds (fun x hx => h x (List.mem_cons_of_mem _ hx))]
+
+/-- `legit_verifies_bytes`: `legit_verifies` through `(*Macaroon).Verify` on BYTES.  The discharges are
+presented as the byte strings their holders encoded (finalised, within the encoder's domain), with
+any number of byte strings that do not decode alongside (`Verify` ignores malformed discharges): the
+legitimate token is accepted and yields its first-party caveats followed by the discharges' kept
+caveats -/
+theorem legit_verifies_bytes (k : Bytes) (m : Mac Bytes) (hL : Legit k m) (dms : List (Mac Bytes))
+    (tr : Bytes → List Bytes) (dbs : List (Mac Bytes × Bool))
+    (h : Aligned (GoodDischarge k m dms tr) (secrets k m) dbs)
+    (hw : ∀ d ∈ dms, encodeState d = d ∧ d.newProof = false ∧ Wireable d)
+    (junk : List Bytes) (hj : ∀ j ∈ junk, Concrete.decode j = none) :
+    Concrete.verifyBytes k m (dms.map wireBytes ++ junk) tr =
+      .ok (m.cavs.filter (kept true) ++ (dbs.map contrib).flatten) := by
+  have hjunk : junk.filterMap Concrete.decode = [] := by
+    apply List.filterMap_eq_nil_iff.mpr
+    exact hj
+  unfold Concrete.verifyBytes
+  rw [List.filterMap_append, filterMap_decode_wire dms hw, hjunk, List.append_nil]
+  exact C05.legit_verifies k m hL dms tr dbs h
+
+/-- malformed discharge bytes presented alongside change nothing (C04) -/
+theorem verifyBytes_ignores_malformed (k : Bytes) (m : Mac Bytes) (ds junk : List Bytes) (tr : Bytes → List Bytes)
+    (hj : ∀ j ∈ junk, Concrete.decode j = none) :
+    Concrete.verifyBytes k m (ds ++ junk) tr = Concrete.verifyBytes k m ds tr ∧
+    Concrete.verifyBytes k m (junk ++ ds) tr = Concrete.verifyBytes k m ds tr := by
+  have hjunk : junk.filterMap Concrete.decode = [] := List.filterMap_eq_nil_iff.mpr hj
+  unfold Concrete.verifyBytes
+  simp [List.filterMap_append, hjunk]
+
+/-! ### C08 with wire hops: a finalised proof stays what it is through add / encode / clone / decode -/
+
+/-- the operations of C08 plus the wire hop: `hop` = `Encode` then `Decode` of the bytes (`Clone`; or
+handing the token to another holder), continuing with the decoded copy -/
+inductive OpB
+  | add (items : List (AddItem Bytes))
+  | encode
+  | hop
+
+def stepB (m : Mac Bytes) : OpB → Mac Bytes
+  | .add items => (add m items).1
+  | .encode => encodeState m
+  | .hop =>
+    match (Concrete.encode m).2.bind Concrete.decode with
+    | some c => c
+    | none => (Concrete.encode m).1
+
+/-- `final_stable_with_hops`: once a proof is finalised (encoded once), every later sequence of `Add`
+calls, encodes, clones and decoded copies leaves the very same token: `Add` is refused on the object
+and on every decoded copy, the bytes never change -/
+theorem final_stable_with_hops (m : Mac Bytes) (h : m.nonce.proof = true) (hn : m.newProof = false)
+    (hw : Wireable m) : ∀ ops : List OpB, ops.foldl stepB m = m
+  | [] => rfl
+  | op :: ops => by
+    have hs : stepB m op = m := by
+      cases op with
+      | add items => exact C08.final_is_stable m h hn (.add items)
+      | encode => exact C08.final_is_stable m h hn .encode
+      | hop =>
+        have hes : encodeState m = m := C08.final_is_stable m h hn .encode
+        obtain ⟨h1, h2⟩ := wire_hop m hes hn hw
+        simp only [stepB, h1, Option.bind_some, h2]
+    rw [List.foldl_cons, hs]
+    exact final_stable_with_hops m h hn hw ops
+
+/-- … and every such later state, decoded copies included, refuses `Add` -/
+theorem final_refuses_add_with_hops (m : Mac Bytes) (h : m.nonce.proof = true) (hn : m.newProof = false)
+    (hw : Wireable m) (ops : List OpB) (items : List (AddItem Bytes)) :
+    add (ops.foldl stepB m) items = (ops.foldl stepB m, some .finalizedProof) := by
+  rw [final_stable_with_hops m h hn hw ops]
+  have := C08.final_after_encode m items h
+  have hes : encodeState m = m := C08.final_is_stable m h hn .encode
+  rwa [hes] at this
+
 /-! ### C02 for the concrete instance -/
 
 /-- `attenuation_only_restricts` for the concrete model: whatever a token attenuated from a
@@ -245,6 +388,7 @@ example := discharge_from_ticket_is_legit ka [9] tcs rn tn vn [7, 7] true []
 example := ticket_roundtrip ka [9] tcs rn tn vn [7, 7] false (by decide) (by decide) (by decide) (by decide) (by decide)
 example := trusted_not_refused ka [] tn rn tcs (by decide) (by decide) (by decide) (by decide) (by decide)
 example := seal_roundtrip ka tn [1, 2, 3] (by decide) (by decide)
+example := sealTicket_nonce_injective ka tn tn rn tcs (by decide) (by decide) rfl
 example := verifierKey_roundtrip ka vn rn (by decide) (by decide)
 
 /-- a legitimate concrete history: mint under a 5-byte root key, add an ordinary caveat and a fresh
@@ -275,6 +419,82 @@ example (ticket : Bytes) := legit_chain [1, 2, 3, 4, 5] _ (sample_legit ticket _
 example := mint_verifies [1, 2, 3, 4, 5] [1] [] [2] [] (fun _ => [])
 example := legit_firstParty_verifies [1, 2, 3, 4, 5] _ (.minted [1] [] [2] 1) [] (fun _ => []) rfl
 
+/-! A byte-level history with a RESOURCE-SET caveat (two entries: the kind for which equal encodings do
+not mean equal association lists, `C02.sameEnc_not_injective_on_raw_lists`): mint, `Add`, hand the
+token on as bytes, verify from bytes; the added caveat is enforced. -/
+
+def sm0 : Mac Bytes := mint [1, 2, 3, 4, 5] [1] [] [2] false
+def sc : Cav Bytes := .apps [(1, 1), (2, 3)]
+
+example : WFCav sc = true := by decide
+
+/-- non-vacuity of `added_caveat_is_enforced_bytes`, `wire_hop`, `legit_hop`, `legit_verifies_bytes`,
+`verifyBytes_ignores_malformed`: all hypotheses hold for this history, and the conclusions are drawn -/
+theorem sample_bytes_history :
+    ∃ m', add sm0 [.plain sc] = (m', none) ∧ Legit [1, 2, 3, 4, 5] m' ∧ Wireable m' ∧
+      verify [1, 2, 3, 4, 5] m' [] (fun _ => []) = .ok [sc] ∧
+      Concrete.decode (wireBytes m') = some m' ∧
+      Concrete.verifyBytes [1, 2, 3, 4, 5] m' ([] ++ [[0xc1]]) (fun _ => []) = .ok [sc] ∧
+      (∀ r, prohibits sc r ≠ [] → ∀ rs, r ∈ rs → validate [sc] rs ≠ []) := by
+  obtain ⟨t, ht, hadd⟩ := add_fresh_plain sm0 sc (by rfl)
+    (by simp [allEncodable, sm0, mint, AddItem.asCav, Crypto.macCav, sc, encodable]) (by rfl) (by rfl) (by rfl)
+  have hL : Legit [1, 2, 3, 4, 5] { sm0 with cavs := sm0.cavs ++ [sc], tail := t } := by
+    have := Legit.added (k := ([1, 2, 3, 4, 5] : Bytes)) sm0 [.plain sc] (.minted [1] [] [2] 1) (by
+      intro it hit; simp only [List.mem_singleton] at hit; subst hit; exact .plain _ rfl) (by rw [hadd])
+    rw [hadd] at this
+    exact this
+  have htl : t.length = 32 := macCav_length _ _ _ ht
+  have hW : Wireable { sm0 with cavs := sm0.cavs ++ [sc], tail := t } := by
+    refine ⟨⟨?_, ?_, ?_, ?_⟩, ?_, ?_⟩
+    · show WFNonce (Concrete.toNonce sm0.nonce) = true
+      decide
+    · show sm0.loc.length < 2 ^ 32
+      decide
+    · show WFCavs (sm0.cavs ++ [sc])
+      exact ⟨by decide, by decide⟩
+    · show t.length < 2 ^ 32
+      omega
+    · show 1 + max 1 (encDepth (sm0.cavs ++ [sc])) ≤ defaultFuel
+      decide
+    · show (sm0.cavs ++ [sc]).all encodable = true
+      decide
+  have h3 : secrets [1, 2, 3, 4, 5] { sm0 with cavs := sm0.cavs ++ [sc], tail := t } = [] := by
+    simp only [secrets, sm0, mint, List.nil_append, tpKeys, tpKeysStep, tpFields?, sc]
+    split <;> rfl
+  have hv' : verify [1, 2, 3, 4, 5] { sm0 with cavs := sm0.cavs ++ [sc], tail := t } [] (fun _ => []) = .ok [sc] :=
+    legit_firstParty_verifies [1, 2, 3, 4, 5] _ hL [] (fun _ => []) h3
+  have inv := Lemmas.legit_inv _ _ hL
+  have hop := wire_hop _ (encodeState_nonproof _ inv.notProof) inv.notNew hW
+  have hvb : Concrete.verifyBytes [1, 2, 3, 4, 5] { sm0 with cavs := sm0.cavs ++ [sc], tail := t } ([] ++ [[0xc1]])
+      (fun _ => []) = .ok [sc] := legit_verifies_bytes [1, 2, 3, 4, 5] _ hL [] (fun _ => []) []
+    (by rw [h3]; exact .nil) (by intro d hd; cases hd) [[0xc1]] (by
+      intro j hj; simp only [List.mem_singleton] at hj; subst hj; decide)
+  refine ⟨_, hadd, hL, hW, hv', hop.2, hvb, ?_⟩
+  · exact (C02.added_caveat_is_enforced_bytes [1, 2, 3, 4, 5] sm0 _ sc [] (fun _ => []) [sc] hadd rfl rfl
+      (by intro x hx; cases hx) (by decide) hv').2 rfl
+
+example := (verifyBytes_ignores_malformed [1, 2, 3, 4, 5] sm0 [] [[0xc1]] (fun _ => [])
+  (by intro j hj; simp only [List.mem_singleton] at hj; subst hj; decide))
+example := legit_hop [1, 2, 3, 4, 5] sm0 (.minted [1] [] [2] 1)
+  ⟨⟨by decide, by decide, ⟨by decide, by decide⟩, by
+      show (Crypto.macNonce ([1, 2, 3, 4, 5] : Bytes) _).length < 2 ^ 32
+      rw [macNonce_length]; decide⟩, by decide, by decide⟩
+example := legit_attenuate_from_bytes [1, 2, 3, 4, 5] sm0 (.minted [1] [] [2] 1)
+  ⟨⟨by decide, by decide, ⟨by decide, by decide⟩, by
+      show (Crypto.macNonce ([1, 2, 3, 4, 5] : Bytes) _).length < 2 ^ 32
+      rw [macNonce_length]; decide⟩, by decide, by decide⟩ [.plain sc] (by
+    intro it hit; simp only [List.mem_singleton] at hit; subst hit; exact .plain _ rfl)
+
+/-- a finalised proof at byte level: a discharge minted under `rn` and encoded once -/
+def sp : Mac Bytes := encodeState (mint rn [7, 7, 7] [9] [2] true)
+theorem sp_wireable : Wireable sp := by
+  refine ⟨⟨by decide, by decide, ⟨by decide, by decide⟩, ?_⟩, by decide, by decide⟩
+  have e : (Concrete.toWire sp).tail = Crypto.finalize (mint rn [7, 7, 7] [9] [2] true).tail := rfl
+  rw [e, finalize_length]; decide
+example := final_stable_with_hops sp rfl rfl sp_wireable [.hop, .add [.plain (.isUser 1)], .encode, .hop]
+example := final_refuses_add_with_hops sp rfl rfl sp_wireable [.hop, .encode] [.plain (.isUser 1)]
+example := (wire_hop sp (C08.final_is_stable sp rfl rfl .encode) rfl sp_wireable).2
+
 end examples
 
 end Macaroon.Props.Concrete
@@ -301,5 +521,17 @@ end Macaroon.Props.Concrete
 #print axioms Macaroon.Props.Concrete.trusted_not_refused
 #print axioms Macaroon.Props.Concrete.attenuation_only_restricts
 #print axioms Macaroon.Props.Concrete.attenuation_monotone
+#print axioms Macaroon.Props.Concrete.box_nonce_injective
+#print axioms Macaroon.Props.Concrete.sealTicket_nonce_injective
+#print axioms Macaroon.Props.Concrete.wire_hop
+#print axioms Macaroon.Props.Concrete.legit_hop
+#print axioms Macaroon.Props.Concrete.legit_attenuate_from_bytes
+#print axioms Macaroon.Props.Concrete.filterMap_decode_wire
+#print axioms Macaroon.Props.Concrete.legit_verifies_bytes
+#print axioms Macaroon.Props.Concrete.final_stable_with_hops
+#print axioms Macaroon.Props.Concrete.final_refuses_add_with_hops
+#print axioms Macaroon.Props.Concrete.verifyBytes_ignores_malformed
+#print axioms Macaroon.Props.Concrete.sample_bytes_history
+#print axioms Macaroon.Props.Concrete.sp_wireable
 #print axioms Macaroon.Props.Concrete.sample_legit
 #print axioms Macaroon.Props.Concrete.sample_add_ok
